@@ -116,7 +116,16 @@ where
     debug_assert!(xs.len() == ys.len(), "number of X and Y coordinates must be the same");
 
     let roots = poly_from_roots(xs);
-    let numerators: Vec<Vec<E>> = xs.iter().map(|&x| syn_div(&roots, 1, x)).collect();
+    // divide by (x - x_i) with the root-based routine: unlike `syn_div` it places no restriction on
+    // the root, so zero is a valid x coordinate
+    let numerators: Vec<Vec<E>> = xs
+        .iter()
+        .map(|&x| {
+            let mut numerator = roots.clone();
+            syn_div_roots_in_place(&mut numerator, &[x]);
+            numerator
+        })
+        .collect();
 
     let denominators: Vec<E> = numerators.iter().zip(xs).map(|(e, &x)| eval(e, x)).collect();
     let denominators = batch_inversion(&denominators);
